@@ -185,6 +185,9 @@ def h1_request(draw: Any, allow_head: bool = False, big: bool = True,
         "body_seed": body["seed"],
         "chunks": draw(chunk_plan(body["len"])) if framing == "chunked" else [],
         "chunk_ext": draw(st.booleans()) if framing == "chunked" else False,
+        # trailer fields after the last chunk (the body ends where the chunks end)
+        "trailers": draw(st.lists(st.sampled_from([["x-checksum", "abc"], ["x-t", ""]]),
+                                  max_size=2)) if framing == "chunked" else [],
     }
     return req
 
